@@ -63,6 +63,8 @@ def import_openhtf():
   threads.ctypes = core.CtypesFacade
   from openhtf.util import console_output
   console_output.CLI_QUIET = True
+  from openhtf.util import logs as _logs
+  _logs.configure_logging()   # (Test.configure() does this; the USB checks create no Test)
   import logging
   # a logging handler that raises would print to stderr; checks observe lost messages themselves
   logging.raiseExceptions = False
